@@ -416,3 +416,11 @@ def _print_parse(facts, res, disp_path, regex_bodies, label):
         res.instance("P3", "Revision: the three-field form is printed iff index > 1: %s" % ok, db.loc())
         if not ok:
             res.violation("P3", "Revision|full-form-condition", "Display for Revision no longer prints the tail exactly when index > 1", db.loc())
+
+
+FIXTURE_EXPECT = ['nondeterminism:std::time', 'pointer-to-int']
+
+
+def thorough(res):
+    from .. import engine
+    engine.sensitivity("C19", res)
